@@ -1243,6 +1243,8 @@ class C17(DirectSpec):
 
     def floors(self, tier):
         fl = [(f"cell.{m}.{b}.{pc}", 1, "cell populated") for m in ("clip", "reflect", "toroidal") for b in gen.BOX_CLASSES for pc in C17_POINT_CLASSES]
+        fl += [(f"cell.{m}.{b}.absolute-magnitude", 1, "input of a magnitude unrelated to the box") for m in ("reflect", "toroidal") for b in ("xscale", "tiny", "decimal")]
+        fl += [("results_re-read_after_later_calls", 100, "results looked at again after later calls of apply_bounds")]
         fl += [(f"cell.{m}.huge.{pc}", 1, "box whose range is finite while twice the range is not") for m in ("reflect", "toroidal") for pc in ("slightly-outside", "ulp-outside-lower", "ulp-outside-upper")]
         return fl
 
